@@ -19,7 +19,12 @@ impl Stage for AirLowerStage {
         };
 
         let mut air_program = aelys_air::lower::lower(&typed_program);
-        aelys_air::layout::compute_layouts(&mut air_program);
+        aelys_air::layout::try_compute_layouts(&mut air_program).map_err(|e| {
+            PipelineError::StageError {
+                stage: "air_lower".to_string(),
+                message: e.to_string(),
+            }
+        })?;
         let air_program = aelys_air::mono::monomorphize(air_program);
 
         Ok(StageOutput::Air(air_program, typed_program, source))
